@@ -94,8 +94,25 @@ def _rand_handler(rng, devs, depth=0):
     adds = []
     if depth < 2 and rng.random() < 0.2:
         for _ in range(rng.randint(1, 2)):
-            adds.append([_rand_index(rng), _rand_handler(rng, devs, depth + 1)])
-    return {"id": hid, "cmds": cmds, "filter": filt, "res": res, "adds": adds}
+            adds.append(_rand_add(rng, devs, depth + 1))
+    h = {"id": hid, "cmds": cmds, "filter": filt, "res": res, "adds": adds}
+    v = rng.random()
+    if v < 0.12:
+        # installed through the convenience wrapper add_wait_handler (GROUP_ANY) = add_handler("wait", h, <always true>)
+        h.update(cmds="wait", filter=None, via="wait")
+    elif v < 0.24 and devs:
+        # installed through add_read_handler_for_multiple(obj, k={...}) = add_handler("read", <const dict>, obj.name)
+        d = rng.choice(devs)
+        val = rng.choice([0, 1, "x", None])
+        h.update(cmds="read", filter={"name": d["name"]}, via="read", via_obj=d["id"], via_kv=["k%d" % rng.randint(0, 1), val],
+                 adds=[])
+        h["res"] = ["const", {"t": [{"t": [h["via_kv"][0], {"t": [{"t": ["value", val]}]}]}]}]
+    return h
+
+
+def _rand_add(rng, devs, depth=0):
+    h = _rand_handler(rng, devs, depth)
+    return ["default" if h.get("via") else _rand_index(rng), h]
 
 
 def _rand_index(rng):
@@ -136,7 +153,7 @@ def _dedupe(vals):
 def _rand_sim_case(rng):
     _hid[0] = 0
     devs = _rand_devs(rng)
-    setup = [[_rand_index(rng), _rand_handler(rng, devs)] for _ in range(rng.randint(0, 5))]
+    setup = [_rand_add(rng, devs) for _ in range(rng.randint(0, 5))]
     answers = _dedupe(_answers_of(setup))
     plans = [_rand_plan(rng, devs, rng.randint(1, 6), answers) for _ in range(rng.randint(1, 3))]
     return {"kind": "sim", "devices": devs, "setup": setup, "plans": plans}
@@ -221,6 +238,8 @@ def _pyval(v):
 def _jval(v):
     if isinstance(v, tuple):
         return {"t": [_jval(x) for x in v]}
+    if isinstance(v, dict):           # a handler answering with a dict (add_read_handler_for_multiple): tuple of (key, value) pairs
+        return {"t": [{"t": [k, _jval(x)]} for k, x in v.items()]}
     return v
 
 
@@ -281,7 +300,7 @@ def _interp(ast, objs, log):
         log["recv"].append(r)
         nxt = node[3]
         for v, sub in node[2]:
-            if _same(_pyval(v), r):
+            if _same(_pyval(v), _pyval(_jval(r))):
                 nxt = sub
                 break
         node = nxt
@@ -311,7 +330,17 @@ def _install(sim, idx, spec):
         def flt(msg):
             return msg.obj is not None
     kw = {} if idx == "default" else {"index": idx}
-    sim.add_handler(spec["cmds"], runnable, flt, **kw)
+    via = spec.get("via")
+    if via == "wait":
+        sim.add_wait_handler(runnable)
+    elif via == "read":
+        k, v = spec["via_kv"]
+        sim.add_read_handler_for_multiple(sim._verif_objs[spec["via_obj"]], **{k: {"value": v}})
+        for h in sim.message_handlers:          # the wrapper's own closure is the runnable: tag it with the handler id
+            if not hasattr(h.runnable, "hid"):
+                h.runnable.hid = spec["id"]
+    else:
+        sim.add_handler(spec["cmds"], runnable, flt, **kw)
 
 
 def _proj_msg(m):
@@ -335,6 +364,7 @@ def impl(case):
     if case["kind"] == "sim":
         from bluesky.simulators import RunEngineSimulator
         sim = RunEngineSimulator()
+        sim._verif_objs = objs
         for idx, spec in case["setup"]:
             _install(sim, idx, spec)
         out = {"hids0": [h.runnable.hid for h in sim.message_handlers], "rv0": _jval(sim.return_value), "calls": []}
